@@ -21,6 +21,11 @@ filter) and THEN read (accessor history + get_measurements value matrices) on al
 paths; constructor guards of AnnotationGroup (number, algorithm type, algorithm
 identification) and of MicroscopyBulkSimpleAnnotations (coordinate type, source images,
 frame of reference, transfer syntax, numbering), one violated at a time.
+Kind 'graphic_nonfinite': malformed input whose non-finite values are PLACED: one cell, a whole column
+of the group (one and the same word / different non-finite words / all rows but one / one annotation
+only), a whole row, everything - x, y or z, over a shared or varying finite z; if such a group is
+accepted, what it stores (point data, CommonZCoordinateValue) and hands back (fresh, written + parsed)
+is recorded for the report.
 Model: coq/theories/C18_Model.v; theorems: C18_Props.v.
 
 Floats are carried as their bit patterns ("words"); the case files store words
@@ -62,12 +67,17 @@ MODELLED = ('ann/content.py Measurements.__init__/get_values, AnnotationGroup.__
             'images, transfer syntax), lookup returning the group object, accessor histories and the get_measurements value '
             'matrix (np.vstack(..).T) on that object; from_dataset guards (Dataset type, SOP class, little endian file meta).  '
             'Not modelled (exercised only): SOPClass header attributes, pydicom I/O.')
-STRATA = ['graphic', 'graphic_bigint', 'graphic_err', 'decode_raw', 'meas', 'meas_raw', 'group_meas', 'group_meas_err',
+STRATA = ['graphic', 'graphic_bigint', 'graphic_err', 'graphic_nonfinite', 'decode_raw', 'meas', 'meas_raw', 'group_meas', 'group_meas_err',
           'lookup', 'lookup_err', 'zero_mixed', 'graphic_layout', 'access_order', 'object', 'object_err', 'parse_guard']
 RULE = ('graphic: 1-4 groups per object, all five graphic types, point counts at and around the limits, 2-D / 3-D with '
         'constant / varying / almost-constant z, dtypes float32 float64 int8..int64 uint8..uint32 and mixed, values from '
         'boundary pools (signed zeros, denormals, max finite, 2^24, dyadic); graphic_err: every guard violated once (count '
         'per type, closed polygon incl. -0/+0, NaN payloads, +-inf, ragged/dimension 1/4, empty list, mixed dimensions); '
+        'graphic_nonfinite: every graphic type x f4/f8 x column (x / y / z, 2-D and 3-D) x placement (one cell, whole column '
+        'with one word = the column the shared-z compaction removes, whole column with different non-finite words, all rows '
+        'but one, one annotation only, one row, everything) x class (quiet / negative / payload / signalling NaN, +inf, -inf), '
+        'over a shared or varying finite z, 1-6 annotations incl. ONE 3-D point with z = NaN, + random with memory layouts and '
+        'mixed f4/f8 arrays; all must raise ValueError; '
         'decode_raw: stored attributes mutated (truncated data, missing/short index list, swapped graphic type, wrong '
         'coordinate type); meas: every NaN mask up to length 4 + random, infinities, payload NaNs, several requested '
         'counts; meas_raw: malformed stored indices; group_meas(_err): named vectors, name filters, wrong lengths dense and '
@@ -369,6 +379,94 @@ def gen_graphic_err(rng):
     return {'kind': 'graphic_err', 'mode': mode, 'd': d, 'groups': [g], 'implicit': False}
 
 
+# ---- non-finite coordinates: WHERE they sit (cell / column / row / all) and of which class
+NF_PLACEMENTS = ['cell', 'column_same', 'column_mixed', 'column_annot', 'column_but_one', 'row', 'all']
+NF_CLASSES = ['nan', 'pinf', 'ninf', 'nan_neg', 'nan_payload', 'snan']
+NF_WORDS = {
+    'f4': {'nan': 0x7fc00000, 'pinf': 0x7f800000, 'ninf': 0xff800000, 'nan_neg': 0xffc00000, 'nan_payload': 0x7fc12345,
+           'snan': 0x7f800001},
+    'f8': {'nan': 0x7ff8000000000000, 'pinf': 0x7ff0000000000000, 'ninf': 0xfff0000000000000,
+           'nan_neg': 0xfff8000000000000, 'nan_payload': 0x7ff8000012345678, 'snan': 0x7ff0000000000001},
+}
+
+
+def place_nonfinite(rng, g, d, placement, col, vclass):
+    """overwrite coordinates of the float group g (in place) with non-finite words; returns g.
+    The result always contains at least one non-finite value."""
+    dt, gd = g['dt'], g['gd']
+    w = NF_WORDS[dt][vclass]
+    rows = [r for a in gd for r in a]
+    if placement == 'cell':
+        rng.choice(rows)[col] = w
+    elif placement == 'column_same':
+        for r in rows:
+            r[col] = w
+    elif placement == 'column_mixed':
+        o = NF_WORDS[dt][rng.choice([k for k in NF_CLASSES if k != vclass])]
+        for i, r in enumerate(rows):
+            r[col] = o if i % 2 else w
+    elif placement == 'column_annot':
+        for r in rng.choice(gd):
+            r[col] = w
+    elif placement == 'column_but_one':
+        for r in rows:
+            r[col] = w
+        if len(rows) > 1:
+            rows[rng.randrange(len(rows))][col] = f2w(3.0, dt)
+    elif placement == 'row':
+        r = rng.choice(rows)
+        r[:] = [w] * d
+    elif placement == 'all':
+        for r in rows:
+            r[:] = [w] * d
+    else:
+        raise ValueError(placement)
+    if g['gt'] == 'POLYGON' and placement not in ('row', 'all'):
+        # keep every polygon open in a finite column, so that the non-finite value is the ONLY defect
+        c2 = 0 if col == 1 else 1
+        for a in gd:
+            if _same_val(a[0][c2], a[-1][c2], dt):
+                a[-1][c2] = f2w(777.0, dt) if not _same_val(a[0][c2], f2w(777.0, dt), dt) else f2w(778.0, dt)
+    return g
+
+
+def gen_graphic_nonfinite(rng, gt=None, dt=None, d=None, col=None, placement=None, vclass=None, nann=None, zmode=None,
+                          plain=False):
+    d = d or rng.choice([2, 3, 3])
+    dt = dt or rng.choice(['f4', 'f8'])
+    col = rng.randrange(d) if col is None else col
+    placement = placement or rng.choice(NF_PLACEMENTS)
+    vclass = vclass or rng.choice(NF_CLASSES)
+    g = gen_group(rng, d, gt=gt, dt=dt, nann=nann or rng.choice([1, 1, 2, 3, rng.randint(1, 6)]),
+                  zmode=zmode or rng.choice(['const', 'vary']))
+    place_nonfinite(rng, g, d, placement, col, vclass)
+    assert any(((w >> 23) & 0xff) == 0xff if dt == 'f4' else ((w >> 52) & 0x7ff) == 0x7ff
+               for a in g['gd'] for r_ in a for w in r_), 'no non-finite value placed'
+    if not plain:
+        r = rng.random()
+        if r < 0.25:
+            g['layout'] = rng.choice(LAYOUTS[1:])
+        elif r < 0.4 and len(g['gd']) > 1:
+            # arrays of both precisions in one group (numpy widens to float64 before any check)
+            g['dts'] = [dt] + [rng.choice(['f4', 'f8']) for _ in g['gd'][1:]]
+            g['gd'] = [a if t == dt else [[_reword(w, dt, t) for w in r_] for r_ in a] for a, t in zip(g['gd'], g['dts'])]
+            g['dt'] = 'mixed' if len(set(g['dts'])) > 1 else dt
+    return {'kind': 'graphic_nonfinite', 'd': d, 'col': col, 'placement': placement, 'vclass': vclass, 'groups': [g],
+            'implicit': False}
+
+
+def _reword(w, src, dst):
+    """the same value as a word of the other precision (exact or to nearest; NaN / inf stay NaN / inf)"""
+    np = _np()
+    with np.errstate(all='ignore'):
+        if src == 'f4':
+            return int(np.array([w], np.uint32).view(np.float32).astype(np.float64).view(np.uint64)[0])
+        x = np.array([w], np.uint64).view(np.float64).astype(np.float32)
+        if not np.isfinite(x[0]) and ((w >> 52) & 0x7ff) != 0x7ff:
+            x = np.array([1.0], np.float32)          # a finite double beyond the binary32 range: keep it finite
+        return int(x.view(np.uint32)[0])
+
+
 def gen_zero_mixed(rng):
     dt = rng.choice(['f4', 'f8'])
     if rng.random() < 0.5:
@@ -516,7 +614,8 @@ def gen_lookup(rng, bad=False):
 
 OBJ_ERR_MODES = ['number_zero', 'number_neg', 'algtype_bad', 'alg_missing', 'numbering_swap', 'numbering_gap', 'meas_len',
                  'graphic_count', 'graphic_nonfinite', 'hdr_nosrc', 'hdr_2src_2d', 'hdr_for', 'hdr_ts', 'hdr_ctype',
-                 'alg_missing+hdr_ts', 'alg_missing+numbering_gap', 'alg_missing+graphic_count', 'number_zero+alg_missing']
+                 'alg_missing+hdr_ts', 'alg_missing+numbering_gap', 'alg_missing+graphic_count', 'number_zero+alg_missing',
+                 'graphic_nonfinite_col', 'alg_missing+graphic_nonfinite_col']
 
 
 def gen_object(rng, tier, mode=None):
@@ -569,6 +668,11 @@ def gen_object(rng, tier, mode=None):
                 for a in g['gd']:
                     a[-1][0] = f2w(1000.0, 'f4')
                 g['gd'][-1][0][1] = rng.choice(F4_NONFINITE)
+            elif m == 'graphic_nonfinite_col':
+                # a whole column of ONE group is one non-finite word (3-D: the z column, which leaves the point data)
+                g['dt'] = rng.choice(['f4', 'f8'])
+                g['gd'] = [[[f2w(float(1 + i + 2 * j), g['dt']) for j in range(d)] for i in range(len(a))] for a in g['gd']]
+                place_nonfinite(rng, g, d, 'column_same', 2 if d == 3 else rng.randrange(2), rng.choice(NF_CLASSES))
             elif m == 'hdr_nosrc':
                 hdr['nsrc'] = 0
             elif m == 'hdr_2src_2d':
@@ -638,6 +742,24 @@ def gen_cases(rng, tier):
         cases.append(gen_graphic(rng, tier))
     for _ in range(90 * n):
         cases.append(gen_graphic_err(rng))
+    # non-finite coordinates by placement: the whole z column with ONE word for every type / precision / class
+    # (the column that leaves the point data), then every column x placement x class cycled
+    k = 0
+    for gt in GT:
+        for dt in ('f4', 'f8'):
+            for vclass in ('nan', 'pinf', 'ninf'):
+                cases.append(gen_graphic_nonfinite(rng, gt=gt, dt=dt, d=3, col=2, placement='column_same', vclass=vclass,
+                                                   plain=True))
+            for d, col in ((2, 0), (2, 1), (3, 0), (3, 1), (3, 2)):
+                k += 1
+                cases.append(gen_graphic_nonfinite(rng, gt=gt, dt=dt, d=d, col=col, placement=NF_PLACEMENTS[k % 7],
+                                                   vclass=NF_CLASSES[(k // 7 + k) % 6], plain=True))
+    for dt in ('f4', 'f8'):
+        # the smallest: ONE 3-D point whose z is NaN
+        cases.append(gen_graphic_nonfinite(rng, gt='POINT', dt=dt, d=3, col=2, placement='cell', vclass='nan', nann=1,
+                                           plain=True))
+    for _ in range(24 * n):
+        cases.append(gen_graphic_nonfinite(rng))
     for _ in range(12 * n):
         cases.append(gen_zero_mixed(rng))
     for _ in range(30 * n):
@@ -922,6 +1044,27 @@ def _run_graphic(c):
         out.append(per_group)
     out.append(bool(dtypes_kept))
     return out
+
+
+def _run_graphic_nonfinite(c):
+    """build the group; if it is accepted, record what it stores and hands back (fresh and written + parsed)"""
+    np = _np()
+    from highdicom.ann import annread
+    d, g = c['d'], c['groups'][0]
+    ct = '2D' if d == 2 else '3D'
+    grp = catch(lambda: _group(1, g['gt'], _arrays(g, d)))
+    if isinstance(grp, Err):
+        return grp
+
+    def written():
+        b = io.BytesIO()
+        _sop([grp], d).save_as(b)
+        g2 = annread(io.BytesIO(b.getvalue())).get_annotation_group(number=1)
+        return [_enc(g2), [_words(x) for x in g2.get_graphic_data(ct)]]
+    return ['accepted', catch(lambda: _enc(grp)),
+            catch(lambda: [_words(np.asarray(x, dtype=(np.float64 if np.asarray(x).dtype == np.float64 else np.float32)))
+                           for x in grp.get_graphic_data(ct)]),
+            catch(written)]
 
 
 def _enter(ann, entry, gt):
@@ -1324,6 +1467,8 @@ def run_impl(c):
     k = c['kind']
     if k in ('graphic', 'graphic_bigint', 'graphic_err', 'zero_mixed', 'graphic_layout'):
         return _run_graphic(c)
+    if k == 'graphic_nonfinite':
+        return _run_graphic_nonfinite(c)
     if k == 'access_order':
         return _run_access_order(c)
     if k == 'decode_raw':
@@ -1462,6 +1607,8 @@ def coq_term(c):
         def path(fmt):
             return 'VL [' + '; '.join(fmt.format(i=i) for i in range(n)) + ']'
         return f"({lets} VL [{path('m{i}')}; {path('sel [1; 2]%nat g{i}')}; {path('g{i}')}; VB true])"
+    if k == 'graphic_nonfinite':
+        return _graphic_term(c['groups'][0], c['d'])
     if k == 'graphic_err':
         if any(len(set(len(r) for r in a)) > 1 for g in c['groups'] for a in g['gd']):
             return None
@@ -1672,6 +1819,56 @@ def _oracle_object(c, out):
     return None
 
 
+def _expected_object_error(c):
+    """exception class a malformed instance must be refused with.  Groups are built one after the other, so the
+    FIRST offending group decides; within a group: number, algorithm type, missing algorithm identification
+    (the one TypeError), graphic data, measurement counts.  Instance level guards (header, numbering) come last
+    and are all ValueError.  Computed from the case data, not from the generator's mode label."""
+    np = _np()
+    lo = {'POINT': (1, 1), 'ELLIPSE': (4, 4), 'RECTANGLE': (4, 4), 'POLYLINE': (2, None), 'POLYGON': (3, None)}
+    for g in c['groups']:
+        if g['number'] < 1 or not 0 <= g['algtype'] < 3:
+            return 'ValueError'
+        if g['algtype'] != 0 and g['alg'] is None:
+            return 'TypeError'
+        a, b = lo[g['gt']]
+        if any(len(x) < a or (b is not None and len(x) > b) for x in g['gd']):
+            return 'ValueError'
+        if g['dt'] in ('f4', 'f8') and any(not np.all(np.isfinite(x)) for x in _arrays(g, c['d'], layout=False)):
+            return 'ValueError'
+        if any(len(m['vs']) != len(g['gd']) for m in g['ms']):
+            return 'ValueError'
+    return 'ValueError'
+
+
+def _oracle_nonfinite(c, out):
+    """independent of the generator's labels: numpy says where the caller's arrays are not finite"""
+    np = _np()
+    d, g = c['d'], c['groups'][0]
+    arrs = _arrays(g, d, layout=False)
+    bad = [(i + 1, int(r), 'xyz'[int(k)], float(a[r, k])) for i, a in enumerate(arrs)
+           for r, k in zip(*np.nonzero(~np.isfinite(a)))]
+    if not bad:
+        # only reachable from the shrinker (a candidate that lost its non-finite value): nothing to judge
+        return None
+    if out == Err('ValueError'):
+        return None
+    nrows = sum(len(a) for a in arrs)
+    what = (f'{len(bad)} non-finite value(s) in {nrows} row(s) of a {d}-D {g["gt"]} group ({g["dt"]}), first: annotation '
+            f'{bad[0][0]} row {bad[0][1]} {bad[0][2]} = {bad[0][3]} [{c["placement"]}, column {"xyz"[c["col"]]}, {c["vclass"]}]')
+    if isinstance(out, Err):
+        return f'{what}: rejected with {out} instead of ValueError'
+    enc = out[1]
+    stored = ''
+    if isinstance(enc, list):
+        fin = lambda w: (w >> (52 if enc[0] else 23)) & (0x7ff if enc[0] else 0xff) != (0x7ff if enc[0] else 0xff)
+        stored = (f'; stored CommonZCoordinateValue word = {enc[3]}'
+                  f'{"" if enc[3] is None or fin(enc[3]) else " (NOT finite)"}, '
+                  f'{sum(1 for w in enc[2] if not fin(w))} non-finite of {len(enc[2])} point data words')
+    back = out[3][1] if isinstance(out[3], list) else out[3]
+    return f'{what}: ACCEPTED{stored}; fresh object returns {str(out[2])[:160]}; written + parsed returns {str(back)[:160]}'
+
+
 def _canon_meas(vs):
     return [0x7fc00000 if (v & 0x7f800000) == 0x7f800000 and (v & 0x7fffff) else v for v in vs]
 
@@ -1694,12 +1891,14 @@ def oracle(c, out):
             return _oracle_object(c, [out])
         return None if out == Err('ValueError') else f'from_dataset ({v}): expected ValueError, got {str(out)[:200]}'
     if k == 'object_err':
-        want = Err('TypeError') if 'alg_missing' in c['mode'] and not c['mode'].startswith('number_zero') else Err('ValueError')
+        want = Err(_expected_object_error(c))
         return None if out == want else f'malformed instance ({c["mode"]}): expected {want}, got {str(out)[:200]}'
     if k == 'zero_mixed':
         return _oracle_graphic(c, out, bitwise=False)
     if k == 'graphic_err':
         return None if out == Err('ValueError') else f'malformed graphic data ({c["mode"]}) not rejected with ValueError: {str(out)[:200]}'
+    if k == 'graphic_nonfinite':
+        return _oracle_nonfinite(c, out)
     if k == 'decode_raw':
         if c['mut'] == 'none':
             _, gd = _model_words(c['group'], c['d'])
@@ -1803,7 +2002,7 @@ def shrink(c):
         for i, a in enumerate(g['gd']):
             if g['gt'] in ('POLYLINE', 'POLYGON') and len(a) > 3:
                 yield dict(c, group=dict(g, gd=g['gd'][:i] + [a[:1] + a[2:]] + g['gd'][i + 1:]))
-    if k in ('graphic', 'graphic_bigint', 'graphic_err', 'zero_mixed', 'graphic_layout'):
+    if k in ('graphic', 'graphic_bigint', 'graphic_err', 'zero_mixed', 'graphic_layout', 'graphic_nonfinite'):
         gs = c['groups']
         if len(gs) > 1:
             for i in range(len(gs)):
